@@ -46,6 +46,9 @@ func c13Fns() []c13Item {
 			}
 			return colmodel.Outcome{K: colmodel.Value, V: canon.N()}
 		}), "fn:constnil"},
+		{l(s("fn"), l(s("&"), s("xs")), s("xs")), colmodel.FnNode("restlist", func(a []*canon.Node) colmodel.Outcome {
+			return colmodel.Outcome{K: colmodel.Value, V: canon.Li(a...)}
+		}), "fn:rest-list"},
 		{s("count"), colmodel.FnNode("count", func(a []*canon.Node) colmodel.Outcome { return colmodel.Call("count", a) }), "fn:count"},
 		{s("list"), colmodel.FnNode("list", func(a []*canon.Node) colmodel.Outcome { return colmodel.Call("list", a) }), "fn:list"},
 		{s("+"), colmodel.FnNode("+", func(a []*canon.Node) colmodel.Outcome {
@@ -78,7 +81,8 @@ func c13Pool() []c13Item {
 		{canon.Ma(map[string]*canon.Node{k("a"): canon.Ve(in(10), in(20))}), "map-of-vec"},
 		{canon.Ve(k2("a"), k2("b")), "vector-of-keys"}, {canon.Li(canon.St("a"), k2("a")), "list-of-keys"}, {canon.Ve(k2("a")), "path-a"}, {canon.Ve(k2("a"), k2("b")), "path-ab"}, {canon.Ve(in(0)), "path-0"}, {canon.Ve(in(2), in(0)), "path-20"},
 		{in(-1), "int-neg"}, {in(0), "int-0"}, {in(1), "int-1"}, {in(2), "int-2"}, {in(3), "int-len"}, {in(4), "int-len+1"},
-		{canon.St(""), "string-empty"}, {canon.St("abc"), "string"}, {canon.St("a"), "string-a"}, {canon.Ke("a"), "kw-a"}, {canon.Ke("b"), "kw-b"}, {canon.Ke("zz"), "kw-absent"},
+		{canon.St(""), "string-empty"}, {canon.St("abc"), "string"}, {canon.St("aé😀z"), "string-nonascii"},
+		{canon.Ma(map[string]*canon.Node{k("a"): canon.N(), k("b"): in(2)}), "map-nil-under-a"}, {canon.St("a"), "string-a"}, {canon.Ke("a"), "kw-a"}, {canon.Ke("b"), "kw-b"}, {canon.Ke("zz"), "kw-absent"},
 		{canon.Sy("a"), "symbol"}, {canon.Bo(true), "true"}, {canon.Bo(false), "false"},
 	}
 	var pool []c13Item
